@@ -1006,9 +1006,10 @@ void SLUFactor<R>::assign(const SLUFactor<R>& old)
    memcpy(this->l.start, old.l.start, (unsigned int)this->l.startSize * sizeof(*this->l.start));
    memcpy(this->l.row,   old.l.row, (unsigned int)this->l.startSize * sizeof(*this->l.row));
 
-   if(!old.l.rval.empty())
+   // the row-wise copy of L exists iff its index arrays are allocated: after a factorization without L vectors the value
+   // array is empty although the arrays exist, and after clear() the arrays are freed although the value array is not
+   if(old.l.ridx != nullptr)
    {
-      assert(old.l.ridx  != nullptr);
       assert(old.l.rbeg  != nullptr);
       assert(old.l.rorig != nullptr);
       assert(old.l.rperm != nullptr);
@@ -1029,11 +1030,11 @@ void SLUFactor<R>::assign(const SLUFactor<R>& old)
    }
    else
    {
-      assert(old.l.ridx  == nullptr);
       assert(old.l.rbeg  == nullptr);
       assert(old.l.rorig == nullptr);
       assert(old.l.rperm == nullptr);
 
+      this->l.rval.clear();
       this->l.ridx  = nullptr;
       this->l.rbeg  = nullptr;
       this->l.rorig = nullptr;
